@@ -88,6 +88,26 @@ func init() {
 					st.dist(variant + a)
 				}
 			}
+			// whole pipeline (real lexer as the parser's scanner) on prepared sources - long lexemes included; the
+			// caller's source buffer must come back untouched
+			if srcs, ok := it.Extra["sources"].([]any); ok && sim.NewLexer != nil && sim.NewParser != nil && im.NewLexer != nil {
+				for _, sv := range srcs {
+					src := fmt.Sprint(sv)
+					b1, b2 := []byte(src), []byte(src)
+					r1, r2 := &rt.Recorder{}, &rt.Recorder{}
+					a := sig(im.NewParser().ParseSrc(b1, r1), r1)
+					b := sig(sim.NewParser().ParseSrc(b2, r2), r2)
+					st.add("sources_parsed", 1)
+					switch {
+					case string(b2) != src:
+						st.violation("C12", it.ID+" "+variant+" srcbuf "+strconv.Quote(src), fmt.Sprintf("flags %v: parsing %q overwrote the caller's source buffer: now %q", sb.Flags, src, b2), map[string]any{"variant": variant, "input": strconv.Quote(src)})
+					case string(b1) != src:
+						st.violation("C12", it.ID+" plain srcbuf "+strconv.Quote(src), fmt.Sprintf("plain build: parsing %q overwrote the caller's source buffer: now %q", src, b1), map[string]any{"input": strconv.Quote(src)})
+					case a != b:
+						st.violation("C12", it.ID+" "+variant+" src "+strconv.Quote(src), fmt.Sprintf("flags %v: parsing source %q gives %s; plain build gives %s", sb.Flags, src, b, a), map[string]any{"variant": variant, "input": strconv.Quote(src)})
+					}
+				}
+			}
 			if lr != nil && sim.NewLexer != nil {
 				var rec func(prefix []byte, d int) bool
 				rec = func(prefix []byte, d int) bool {
